@@ -319,3 +319,22 @@ pub fn run(cfg: &Cfg, rep: &mut Report) {
     rep.sample(json!({"triple":[0xF1,0x7F,3],"expected_structured_bytes":[0xF1,0x77,0],"note":"reserved bit of 'last' quarter frame cleared"}));
     rep.sample(json!({"structured_value": format!("{:?}", structured_of(0xE2, 5, 100))}));
 }
+
+/// thinned slice for the Miri side run (supporting evidence only)
+pub fn miri_slice(rep: &mut Report) {
+    for s in 0x70u16..=0xFF {
+        for d1 in [0u8, 1, 0x75, 0x7F] {
+            for d2 in [0u8, 127] {
+                let s = s as u8;
+                check_factory::<RawShortMessage>("Raw", false, s, d1, d2, rep);
+                check_factory::<StructuredShortMessage>("Structured", true, s, d1, d2, rep);
+                check_factory::<Foreign>("Foreign", false, s, d1, d2, rep);
+                check_raw_extra(s, d1, d2, rep);
+                if s >= 0x80 && canon(s, d1, d2) == (s, d1, d2) {
+                    check_structured_value(s, d1, d2, rep);
+                }
+                rep.evaluations += 5;
+            }
+        }
+    }
+}
